@@ -21,6 +21,9 @@ TLA_JAR = "/opt/veriftools/tla/tla2tools.jar"
 NCPU = os.cpu_count() or 8
 
 
+LAST_STATS = []
+
+
 class ToolError(Exception):
     pass
 
@@ -300,6 +303,8 @@ def validate(pid, module, obs_path, cfg=None, chunk=20000, parallel=None, env=No
             chunks.append((cp, k * chunk, len(buf)))
     parallel = parallel or max(1, min(len(chunks), NCPU // workers))
     fails, states = [], [0]
+    global LAST_STATS
+    LAST_STATS = []
     errors = []
     lockv = threading.Lock()
     sem = threading.Semaphore(parallel)
@@ -317,6 +322,7 @@ def validate(pid, module, obs_path, cfg=None, chunk=20000, parallel=None, env=No
                     if r.distinct != cnt:
                         errors.append("validator %s chunk %d evaluated %d of %d cases\n%s" % (module, idx, r.distinct, cnt, r.out[-1500:]))
                     states[0] += r.distinct
+                    LAST_STATS.extend(n for n in r.notes if isinstance(n, dict))
                     for fl in r.fails:
                         fl["line"] = base + fl.get("c", 1) - 1
                         fails.append(fl)
